@@ -44,7 +44,8 @@ def detect(d: pathlib.Path, props):
         for p in props:
             r = sh(["python3-vt", "check.py", p, "--no-evidence"], cwd=str(HERE), timeout=3600)
             viol = sorted(set(re.findall(r"VIOLATION property=\S+ replay=\S*/([^/\s]+)\.json( no-failing-input-found)?", r.stdout)))
-            out[p] = {"exit": r.returncode, "violations": [v[0] + (" (no native input)" if v[1] else "") for v in viol][:12],
+            errs = sorted(set(re.findall(r"replay\[error\]: (.*)", r.stdout)))
+            out[p] = {"exit": r.returncode, "replay_errors": [e[-200:] for e in errs][:5], "violations": [v[0] + (" (no native input)" if v[1] else "") for v in viol][:12],
                       "undecided": len(re.findall(r"^UNDECIDED", r.stdout, re.M)), "summary": (r.stdout.strip().splitlines() or [""])[-2][:200]}
     finally:
         sh(["git", "-C", "/repo", "checkout", "--", "."])
@@ -70,7 +71,8 @@ def main():
         rec.setdefault("checks", {}).update(detect(d, props))
         own = rec["checks"].get(meta["property"], {})
         rec["detected"] = own.get("exit") == 1
-        print(i, meta["property"], "DETECTED" if rec["detected"] else f"missed (exit {own.get('exit')})", own.get("violations", [])[:3])
+        print(i, meta["property"], "DETECTED" if rec["detected"] else f"missed (exit {own.get('exit')})", own.get("violations", [])[:3],
+              ("REPLAY-ERRORS " + repr(own.get("replay_errors"))) if own.get("replay_errors") else "")
         resf.write_text(json.dumps(results, indent=1))
 
 
